@@ -1,6 +1,6 @@
 (* C09 — Base fee follows EIP-1559 and bounds every executed transaction's price.
    This file holds statements only; proofs are in Proofs/BaseFeeProofs.v. *)
-From Evm Require Import BaseFee BaseFeeProofs.
+From Evm Require Import BaseFee BaseFeeProofs BaseFeeHist BaseFeeHistProofs.
 Open Scope Z_scope.
 
 (* next base fee = max(EIP-1559(b, used, target), trunc(min gas price)); with a zero gas target
@@ -51,6 +51,69 @@ Theorem C09_price_bound : forall m dyn base gmin nmin tip cap price,
   base <= eff_price dyn base tip cap price /\ gmin / E18 <= eff_price dyn base tip cap price.
 Proof. exact price_bound. Qed.
 Print Assumptions C09_price_bound.
+
+(* ---- block histories with parameter changes (Model/BaseFeeHist.v): per block any gas used, any list
+   of governance proposals (x/feemarket MsgUpdateParams, x/consensus MsgUpdateParams; valid or not, one
+   or several messages each) executed by gov's EndBlock BEFORE the fee market's, any offered
+   transactions.  `run_hist st l` = the states at the block boundaries, i.e. what each next block starts
+   from. ---- *)
+
+(* never below the integer part of the configured minimum gas price: at EVERY block boundary of EVERY
+   history, from any initial state, whatever governance did in between *)
+Theorem C09_history_floor : forall l st,
+  Forall (fun s => f_min s / E18 <= f_base s) (fst (run_hist st l)).
+Proof. exact run_hist_floor. Qed.
+Print Assumptions C09_history_floor.
+
+(* that statement for the other order of the two end blockers (fee market ahead of gov) is FALSE: a
+   passed proposal that raises the minimum gas price above the base fee it carries leaves the committed
+   base fee below it.  This is why app/modules.go orderEndBlockers must keep the fee market after gov. *)
+Definition C09_history_floor_fee_market_first_full : Prop :=
+  forall st l, f_min st / E18 <= f_base st ->
+  Forall (fun s => f_min s / E18 <= f_base s) (fst (run_hist_fee_first st l)).
+Theorem C09_history_floor_fee_market_first_refuted : ~ C09_history_floor_fee_market_first_full.
+Proof. exact floor_hist_fee_first_refuted. Qed.
+Print Assumptions C09_history_floor_fee_market_first_refuted.
+
+(* every block of a history: the committed base fee is the EIP-1559 function of the base fee the fee
+   market finds (after gov), the gas used and the target of the max_gas the block ran under (a max_gas
+   changed by governance counts from the next block on), clamped by the minimum gas price *)
+Theorem C09_history_step_is_eip1559 : forall st k st',
+  -1 <= f_mg st -> end_block st k = HOk st' ->
+  let g := gov_end_block st (h_props k) in
+  let t := gas_target (f_mg st) in
+  f_base st' = Z.max (if t =? 0 then f_base g else eip1559_spec (f_base g) (h_used k) t) (f_min g / E18)
+  /\ f_min st' = f_min g /\ f_mg st' = f_mg_next g /\ f_mg_next st' = f_mg_next g.
+Proof. exact end_block_is_eip1559. Qed.
+Print Assumptions C09_history_step_is_eip1559.
+
+(* over all histories with parameter changes: never negative, never a division by zero *)
+Theorem C09_history_params_nonneg : forall l st,
+  0 <= f_base st /\ -1 <= f_mg st /\ -1 <= f_mg_next st ->
+  Forall (fun k => 0 <= h_used k) l ->
+  Forall (fun s => 0 <= f_base s) (fst (run_hist st l)) /\ snd (run_hist st l) <> Some PanicDivZero.
+Proof. exact run_hist_nonneg. Qed.
+Print Assumptions C09_history_params_nonneg.
+
+(* no transaction below the base fee or the integer part of the minimum gas price of the state it runs
+   against is executed, anywhere in any history *)
+Theorem C09_history_executed_price_bound : forall l st,
+  Forall (fun x => Z.max (f_base (fst x)) (f_min (fst x) / E18) <= ptx_eff (fst x) (snd x))
+         (hist_executed st l).
+Proof. exact hist_executed_bound. Qed.
+Print Assumptions C09_history_executed_price_bound.
+
+(* non-vacuity: the witness history of the refutation, in the order of the code; and executions on both
+   sides of a rise of the minimum gas price *)
+Example C09_history_example :
+  fst (run_hist order_witness_state [order_witness_block]) = [mkF 5000000000 (5000000000 * E18) 40000000 40000000]
+  /\ fst (run_hist_fee_first order_witness_state [order_witness_block]) = [mkF 1000000000 (5000000000 * E18) 40000000 40000000]
+  /\ map (fun x => ptx_eff (fst x) (snd x))
+       (hist_executed order_witness_state
+          [mkB 0 [[GSetFee 1000000000 (5000000000 * E18)]] [mkP false 0 0 1000000000];
+           mkB 0 [] [mkP false 0 0 4999999999; mkP false 0 0 5000000000; mkP true 0 5000000000 0]])
+     = [1000000000; 5000000000; 5000000000].
+Proof. vm_compute. auto. Qed.
 
 (* The full totality statement ("never fails for any base fee in 0..2^256") is FALSE of the
    faithful model: known finding C09/basefee/panic_overflow. *)
